@@ -14,7 +14,7 @@ class BodyError(KeyError):
     """the producer's own exception"""
 
 
-def make_iter(ns_name, items, raise_at=None, marks=None):
+def make_iter(ns_name, items, raise_at=None, marks=None, pause=0.0):
     """items -> iterable (WSGI) / async generator (ASGI); optional producer failure before item `raise_at`"""
     if ns_name == "wsgi":
         def gen():
@@ -22,6 +22,9 @@ def make_iter(ns_name, items, raise_at=None, marks=None):
                 marks["entered"] = marks.get("entered", 0) + 1
             try:
                 for i, it in enumerate(items):
+                    if pause:
+                        import time
+                        time.sleep(pause)  # a producer that is silent for longer than the ping interval
                     if raise_at == i:
                         raise BodyError("producer failed")
                     yield _copy(it)
@@ -37,7 +40,7 @@ def make_iter(ns_name, items, raise_at=None, marks=None):
             marks["entered"] = marks.get("entered", 0) + 1
         try:
             for i, it in enumerate(items):
-                await asyncio.sleep(0)
+                await asyncio.sleep(pause)
                 if raise_at == i:
                     raise BodyError("producer failed")
                 yield _copy(it)
@@ -75,14 +78,18 @@ def response_from(ns, r, marks=None):
     elif kind == "JSON":
         resp = ns.JSONResponse(r["content"], **kw, **r.get("json_kwargs", {}))
     elif kind == "Redirect":
-        resp = ns.RedirectResponse(r["url"], **kw)
+        target = r["url"]
+        if r.get("as_url"):
+            from baize.datastructures import URL
+            target = URL(target)
+        resp = ns.RedirectResponse(target, **kw)
     elif kind == "Stream":
         extra = {"content_type": r["content_type"]} if r.get("content_type") else {}
         resp = ns.StreamResponse(make_iter(name, r["chunks"], r.get("raise_at"), marks), **kw, **extra)
     elif kind == "SSE":
         extra = {k: r[k] for k in ("ping_interval", "charset") if r.get(k) is not None}
         extra.setdefault("ping_interval", 1000.0)
-        resp = ns.SendEventResponse(make_iter(name, r["events"], r.get("raise_at"), marks), **kw, **extra)
+        resp = ns.SendEventResponse(make_iter(name, r["events"], r.get("raise_at"), marks, pause=r.get("pause", 0.0)), **kw, **extra)
     elif kind == "File":
         extra = {k: r[k] for k in ("content_type", "download_name", "chunk_size") if r.get(k) is not None}
         kw.pop("status_code", None)
@@ -237,7 +244,8 @@ def gen_response(rng, files=None, allow_sse=True, allow_raise=False):
         if rng.random() < 0.2:
             r["json_kwargs"] = rng.choice([{"indent": 2}, {"ensure_ascii": True}, {"sort_keys": True}])
     elif kind == "Redirect":
-        r["url"] = rng.choice(["/", "/next?x=1", "http://example.com/é", "//h/p#f", "/a b", "relative", "/中文?q=ü"])
+        r["url"] = rng.choice(["/", "/next?x=1", "http://example.com/é", "//h/p#f", "/a b", "relative", "/中文?q=ü", "http://h/tab\there"])
+        r["as_url"] = rng.random() < 0.4
         if "status" in r:
             r["status"] = rng.choice([301, 302, 303, 307, 308])
     elif kind == "Stream":
@@ -254,6 +262,9 @@ def gen_response(rng, files=None, allow_sse=True, allow_raise=False):
             r["charset"] = rng.choice(["utf-8", "gbk"])
         if allow_raise and rng.random() < 0.3:
             r["raise_at"] = rng.randrange(0, n + 1)
+        if n and rng.random() < 0.06:
+            r["ping_interval"], r["pause"] = 0.01, 0.035  # pings get interleaved
+            r["events"] = r["events"][:2]
     elif kind == "File":
         f = rng.choice(files)
         r["path"] = f
